@@ -60,6 +60,11 @@ type respSpec struct {
 	ETag    string    `json:"etag,omitempty"`
 	ModTime time.Time `json:"modTime,omitempty"`
 	Abort   bool      `json:"abort,omitempty"`
+	// CutFirst: the first N answers break off in the middle of the (encoded) body: all headers and
+	// half of the announced bytes are sent, then the connection is closed
+	CutFirst int `json:"cutFirst,omitempty"`
+	// Reset: the request is read and logged, then the connection is reset before any response byte
+	Reset bool `json:"reset,omitempty"`
 	// DropFirst: header names left out of the first N answers (an upstream whose
 	// answer becomes cacheable only later)
 	DropFirst      int      `json:"dropFirst,omitempty"`
@@ -297,6 +302,18 @@ func (u *upstreamSrv) handle(w http.ResponseWriter, r *http.Request) {
 	if spec.DelayMs > 0 {
 		time.Sleep(time.Duration(spec.DelayMs) * time.Millisecond)
 	}
+	if spec.Reset {
+		if hj, ok := w.(http.Hijacker); ok {
+			if conn, _, err := hj.Hijack(); err == nil {
+				if tc, ok := conn.(*net.TCPConn); ok {
+					_ = tc.SetLinger(0)
+				}
+				_ = conn.Close()
+				return
+			}
+		}
+		panic(http.ErrAbortHandler)
+	}
 	h := w.Header()
 	u.mu.Lock()
 	spec.served++
@@ -338,6 +355,17 @@ func (u *upstreamSrv) handle(w http.ResponseWriter, r *http.Request) {
 		h.Set("Content-Encoding", strings.TrimSuffix(spec.Encoding, "-multi"))
 	}
 	h.Set("Content-Length", strconv.Itoa(len(data)))
+	u.mu.Lock()
+	cut := spec.served <= spec.CutFirst
+	u.mu.Unlock()
+	if cut && r.Method != http.MethodHead && len(data) > 1 {
+		w.WriteHeader(spec.Status)
+		_, _ = w.Write(data[:len(data)/2])
+		if f, ok := w.(http.Flusher); ok {
+			f.Flush()
+		}
+		panic(http.ErrAbortHandler)
+	}
 	w.WriteHeader(spec.Status)
 	if r.Method != http.MethodHead {
 		_, _ = w.Write(data)
